@@ -1007,17 +1007,22 @@ pub fn main(args: &Args) -> i32 {
         return bench();
     }
     let report = Report::new("C28", args.tier, args.seed, "model_checking");
-    let depth = args.tier.pick(3usize, 4usize);
+    // (longest history, well-typed values per writable property, shortest history of this phase)
+    // thorough: everything up to 3 operations with both values, then all 4-operation histories
+    // with one value (the shorter ones over that alphabet are a subset of the first phase).
+    let phases: Vec<(usize, usize, usize)> = args.tier.pick(vec![(3, 2, 0)], vec![(3, 2, 0), (4, 1, 4)]);
+    let depth = phases.iter().map(|p| p.0).max().unwrap();
     let states: Mutex<HashSet<u64>> = Mutex::new(HashSet::new());
     let sink = crate::osrv::VioSink::default();
     let (transitions, histories, dead) = (AtomicU64::new(0), AtomicU64::new(0), AtomicU64::new(0));
     let mut bank = vec![];
-    for k in 0..4 {
-        let alpha = alphabet(k, args.tier.pick(1, 2));
-        let total = enumerate::count_strings(alpha.len(), depth);
+    for (k, &(max_len, n_values, min_len)) in (0..4).flat_map(|k| phases.iter().map(move |p| (k, p))) {
+        let alpha = alphabet(k, n_values);
+        let first = if min_len == 0 { 0 } else { enumerate::count_strings(alpha.len(), min_len - 1) };
+        let total = enumerate::count_strings(alpha.len(), max_len) - first;
         crate::osrv::par_items(total, 64, &report, &states, |n, acc| {
             let mut idx = vec![];
-            enumerate::nth_string(alpha.len(), n, &mut idx);
+            enumerate::nth_string(alpha.len(), first + n, &mut idx);
             let h: Vec<POp> = idx.iter().map(|a| alpha[*a].clone()).collect();
             match run_history_k(k, &h, false) {
                 Exec::DeadPrefix(_, _) => {
@@ -1052,6 +1057,9 @@ pub fn main(args: &Args) -> i32 {
             "interface": iface(k),
             "setter_style": SETTER_STYLE[k],
             "alphabet_size": alpha.len(),
+            "history_lengths": format!("{min_len}..={max_len}"),
+            "values_per_writable_property": n_values,
+            "histories": total,
             "properties": (0..MODES.len()).map(|j| json!({"name": MODES[j].2, "type": ty_of(k, j).sig(), "access": access_str(j), "emits_changed_signal": MODES[j].1})).collect::<Vec<_>>(),
         }));
     }
